@@ -575,3 +575,49 @@ def lang_args(lang):
     if lang == "kotlin":
         return ["--java-package", "com.example"]
     return []
+
+
+# ----------------------------------------------------------------------------- what the binary leaves on disk
+
+def dirty_destination(check, label, lang, sources, extra_args=(), earlier_sources=None):
+    """The generated definitions a user gets are the *file* the binary leaves behind, and output paths usually exist already.
+    `sources`: {relative path: text} of one crate (`proj/src/...`).  Reference = the run into a fresh path.  Then the same command
+    is run over a destination that already holds (a) the reference followed by more text, (b) a text of exactly the reference's
+    length that differs from it, (c) a prefix of the reference, (d) the output of `earlier_sources` (an earlier version of the
+    program).  Every time the file must end up byte-identical to the reference.  Returns a problem dict or None; reports nothing."""
+    with Scratch() as sc:
+        for rel, text in sources.items():
+            sc.write("proj/" + rel, text)
+        ref_path = sc.path("ref/out." + EXT[lang])
+        os.makedirs(sc.path("ref"))
+        cmd = lambda out: ["--lang", lang, "-o", out] + lang_args(lang) + list(extra_args) + [sc.path("proj")]
+        r = run_cli(cmd(ref_path), cwd=sc.dir)
+        if r["rc"] != 0 or not os.path.exists(ref_path):
+            return None                 # not generated at all: not this helper's business
+        ref = open(ref_path, "rb").read()
+        mid = len(ref) // 2
+        flipped = ref[:mid] + (b"#" if ref[mid:mid + 1] != b"#" else b"%") + ref[mid + 1:]
+        states = [("longer", ref + b"\n// left over from an earlier, longer output\nstale stale stale\n"),
+                  ("same-length", flipped), ("shorter", ref[:mid])]
+        if earlier_sources is not None:
+            with Scratch() as sc2:
+                for rel, text in earlier_sources.items():
+                    sc2.write("proj/" + rel, text)
+                p2 = sc2.path("out." + EXT[lang])
+                r2 = run_cli(["--lang", lang, "-o", p2] + lang_args(lang) + list(extra_args) + [sc2.path("proj")], cwd=sc2.dir)
+                if r2["rc"] == 0 and os.path.exists(p2):
+                    states.append(("earlier-version", open(p2, "rb").read()))
+        for name, content in states:
+            out = sc.path("dest-%s/out.%s" % (name, EXT[lang]))
+            os.makedirs(os.path.dirname(out))
+            with open(out, "wb") as f:
+                f.write(content)
+            r = run_cli(cmd(out), cwd=sc.dir)
+            check.saw(("dirty-destination", label, lang, name, hashlib.sha256(ref).hexdigest()[:12]), nontrivial=True)
+            check.count("dirty-destination-" + name)
+            got = open(out, "rb").read() if os.path.exists(out) else None
+            if r["rc"] != 0 or got != ref:
+                return {"state": name, "lang": lang, "sources": sources, "existing_file": content.decode("utf-8", "replace")[-1500:],
+                        "file_after_run": None if got is None else got.decode("utf-8", "replace")[-2500:],
+                        "fresh_run": ref.decode("utf-8", "replace")[-2500:], "rc": r["rc"]}
+    return None
